@@ -406,7 +406,8 @@ def functions_encoded(res):
     for p in res:
         loc = p.get("sourceLocation", {})
         f = loc.get("file", "")
-        if "/rs-matter/src/" in f and loc.get("function"):
+        # (paths are relative to the workspace root: "rs-matter/src/...")
+        if (f.startswith("rs-matter/src/") or "/rs-matter/src/" in f) and loc.get("function") and "verif_kani_" not in loc["function"]:
             fs.add(loc["function"])
     return sorted(fs)
 
